@@ -512,3 +512,37 @@ func verifH_C06_multipart_undeclared() {
 	verifKnown("C06-multipart-undeclared-part-refused", false)
 	verifReach("end")
 }
+
+//verif:harness id=C06 tier=quick,thorough witness=end bounds="url-encoded bodies with a field the schema does not declare: object schema {s: string} with additionalProperties absent / true / false / {type: string, maxLength 1}; body s=v&zz=a or zz=ab: the undeclared field is judged by additionalProperties like any undeclared member"
+func verifH_C06_form_undeclared() {
+	obj := &openapi3.Schema{Type: &openapi3.Types{"object"}, Properties: openapi3.Schemas{"s": {Value: &openapi3.Schema{Type: &openapi3.Types{"string"}}}}}
+	ap := verifChoose("ap", 4)
+	one := uint64(1)
+	switch ap {
+	case 1:
+		t := true
+		obj.AdditionalProperties.Has = &t
+	case 2:
+		f := false
+		obj.AdditionalProperties.Has = &f
+	case 3:
+		obj.AdditionalProperties.Schema = &openapi3.SchemaRef{Value: &openapi3.Schema{Type: &openapi3.Types{"string"}, MaxLength: &one}}
+	}
+	zz := []string{"a", "ab"}[verifChoose("zz", 2)]
+	body := "s=v&zz=" + zz
+	rb := &openapi3.RequestBody{Required: true, Content: openapi3.Content{"application/x-www-form-urlencoded": &openapi3.MediaType{Schema: &openapi3.SchemaRef{Value: obj}}}}
+	op := &openapi3.Operation{RequestBody: &openapi3.RequestBodyRef{Value: rb}}
+	input := verifBodyInput(op, "application/x-www-form-urlencoded", body, true, &Options{})
+	err := ValidateRequestBody(context.Background(), input, rb)
+	want := true
+	switch ap {
+	case 2:
+		want = false
+	case 3:
+		want = len(zz) <= 1
+	}
+	verifKnown("C06-form-undeclared-field-dropped", !want)
+	verifAssert((err == nil) == want, "C06 form undeclared: an undeclared field is judged by additionalProperties like any undeclared member")
+	verifKnown("C06-form-undeclared-field-dropped", false)
+	verifReach("end")
+}
